@@ -184,7 +184,15 @@ def gen_prior_spec(rng, data_unit, n_offsets=0, poly_trend=None, kkind=None, p_u
              mu=float(rng.uniform(-2, 1)), sd=float(rng.uniform(0.3, 1.5)))
     custom_lin = means or bool(rng.random() < 0.3)
     sv_form = str(rng.choice(["list", "scalar", "dict"]))
-    return dict(sigma_v_form=sv_form, poly_trend=poly, n_offsets=n_offsets, P_unit=p_unit, P_min=float(P_min), P_max=float(P_max), K=K, v=v,
+    # priors written with integer literals, pm.Normal("v0", 0, 100): pytensor then carries the parameters as int8/int16
+    # constants. The numbers are rounded here, in the spec, so oracle and code see the same prior.
+    int_literals = bool(rng.random() < 0.15)
+    if int_literals:
+        targets = list(off) + (list(v[:1]) if custom_lin else []) + ([K] if K["kind"] == "normal" else [])
+        for d_ in targets:
+            d_["sigma"] = int(min(max(round(d_["sigma"]), 2), 30000))
+            d_["mu"] = int(max(min(round(d_["mu"]), 30000), -30000))
+    return dict(int_literals=int_literals, sigma_v_form=sv_form, poly_trend=poly, n_offsets=n_offsets, P_unit=p_unit, P_min=float(P_min), P_max=float(P_max), K=K, v=v,
                 offsets=off, s=s, custom_linear=bool(custom_lin))
 
 
